@@ -273,6 +273,20 @@ def content_type_rules(ctx, prog, ser, pk, spec, ox, rid):
 
 
 
+def part_construction(pf):
+    """Where the loader builds a part: (key expression, PartFactory call, iterable the names are drawn from), for the
+    comprehension form `{name: PartFactory(...) for name in it}` and the loop form `for name in it: parts[name] = PartFactory(...)`."""
+    for n in ast.walk(pf.node):
+        if isinstance(n, ast.DictComp) and isinstance(n.value, ast.Call) and dotted(n.value.func) == "PartFactory":
+            return n.key, n.value, n.generators[0].iter
+    for loop in [n for n in ast.walk(pf.node) if isinstance(n, ast.For)]:
+        for n in ast.walk(loop):
+            if isinstance(n, ast.Assign) and isinstance(n.value, ast.Call) and dotted(n.value.func) == "PartFactory" \
+                    and isinstance(n.targets[0], ast.Subscript):
+                return n.targets[0].slice, n.value, loop.iter
+    return None
+
+
 def run(ctx):
     from checks.c10 import load
 
@@ -478,38 +492,47 @@ def run(ctx):
     if not (rels and rel and ctr and ctrs):
         raise AnalysisError("anchor vanished: _Relationships/_Relationship/CT_Relationship(s)")
     xmlp = rels.methods.get("xml")
-    good = False
-    all_keys = False
-    for n in ast.walk(xmlp.node):
-        if isinstance(n, ast.For):
-            for c in _calls(n, "add_rel"):
-                v = n.target.id if isinstance(n.target, ast.Name) else None
-                good = good or [dotted(a) for a in c.args] == [v + ".rId", v + ".reltype", v + ".target_ref", v + ".is_external"]
-        if isinstance(n, ast.comprehension) and isinstance(n.iter, ast.Call) and dotted(n.iter.func) in ("self.keys", "self._rels.keys", "self._rels") and not n.ifs:
-            all_keys = True
-        if isinstance(n, ast.comprehension) and dotted(n.iter) in ("self", "self._rels") and not n.ifs:
-            all_keys = True
+    from sa.itersrc import source_of
+
+    KEYS = {"self.keys()", "self", "self._rels", "self._rels.keys()"}
+    VALUES = {"self.values()", "self._rels.values()"}
+    add_calls = [(n, c) for n in ast.walk(xmlp.node) if isinstance(n, ast.For) for c in _calls(n, "add_rel")]
     ret = [n.value for n in ast.walk(xmlp.node) if isinstance(n, ast.Return) and dotted(n.value) and dotted(n.value).endswith(".xml_file_bytes")]
-    lossy = []
-    for n in ast.walk(xmlp.node):
-        if isinstance(n, (ast.DictComp, ast.SetComp)) and any(dotted(g_.iter) in ("self", "self._rels") or (
-                isinstance(g_.iter, ast.Call) and dotted(g_.iter.func) in ("self.keys", "self._rels.keys", "self.items", "self.values")) for g_ in n.generators):
-            kexpr = n.key if isinstance(n, ast.DictComp) else n.elt
-            tv = n.generators[0].target
-            tnames = {x.id for x in ast.walk(tv) if isinstance(x, ast.Name)}
-            injective = (isinstance(kexpr, ast.Name) and kexpr.id in tnames) or (
-                isinstance(kexpr, ast.Tuple) and any(isinstance(e, ast.Name) and e.id in tnames for e in kexpr.elts)) or (
-                isinstance(kexpr, ast.Attribute) and kexpr.attr == "rId")
-            if not injective:
-                lossy.append(ast.unparse(n)[:70])
-    if lossy:
-        ctx.violation("R1.3", "_Relationships.xml:lossy", "relationships pass through `%s`, keyed by a value that is not the relationship id itself: "
-                      "two ids with the same key collapse into one and the others are not written" % lossy[0], file=xmlp.file, line=xmlp.line)
-    elif good and all_keys and ret:
-        ctx.ok("R1.3", "_Relationships.xml", sample={"per_relationship": "add_rel(rId, reltype, target_ref, is_external) for every key"})
+    if not add_calls or not ret:
+        ctx.error("_Relationships.xml", "loop calling add_rel / return of xml_file_bytes not recognised")
     else:
-        ctx.violation("R1.3", "_Relationships.xml", "not every relationship is serialised with its (rId, reltype, target_ref, is_external) "
-                      "(fields=%s all-keys=%s)" % (good, all_keys), file=xmlp.file, line=xmlp.line)
+        loop, c = add_calls[-1]
+        args = [dotted(a_) for a_ in c.args]
+        v = (args[0] or "").rsplit(".", 1)[0] if args and args[0] else None
+        fields = bool(v) and args == [v + ".rId", v + ".reltype", v + ".target_ref", v + ".is_external"]
+        # where does the relationship object come from?
+        src = None
+        if fields:
+            if isinstance(loop.target, ast.Name) and loop.target.id == v:
+                src = source_of(xmlp.node, loop.iter)
+                # generator `self[rId] for ... in <keys>` maps keys to their relationships
+                want = KEYS | VALUES
+            else:
+                asg = [n for n in ast.walk(loop) if isinstance(n, ast.Assign) and isinstance(n.targets[0], ast.Name) and n.targets[0].id == v]
+                if len(asg) == 1 and isinstance(asg[0].value, ast.Subscript) and dotted(asg[0].value.value) in ("self", "self._rels") \
+                        and isinstance(loop.target, ast.Name) and dotted(asg[0].value.slice) == loop.target.id:
+                    src = source_of(xmlp.node, loop.iter)
+                    want = KEYS
+        if not fields:
+            ctx.violation("R1.3", "_Relationships.xml", "a relationship is not serialised with its own (rId, reltype, target_ref, is_external): "
+                          "add_rel(%s)" % ", ".join(ast.unparse(a_) for a_ in c.args), file=xmlp.file, line=c.lineno)
+        elif src is None:
+            ctx.error("_Relationships.xml", "origin of the serialised relationship `%s` not recognised" % v)
+        elif src["lossy"]:
+            ctx.violation("R1.3", "_Relationships.xml:lossy", "relationships pass through `%s`, keyed by a value that is not the relationship id itself: "
+                          "two ids with the same key collapse into one and the others are not written" % src["lossy"][0], file=xmlp.file, line=xmlp.line)
+        elif src["filtered"]:
+            ctx.violation("R1.3", "_Relationships.xml", "relationships are filtered before serialisation (`if %s`)" % src["filtered"][0],
+                          file=xmlp.file, line=xmlp.line)
+        elif src["terminal"] in want:
+            ctx.ok("R1.3", "_Relationships.xml", sample={"per_relationship": "add_rel(rId, reltype, target_ref, is_external)", "over": src["terminal"]})
+        else:
+            ctx.error("_Relationships.xml", "serialised relationships are drawn from `%s`, which is not recognised as the whole collection" % src["terminal"])
     ar = ctrs.methods.get("add_rel")
     newf = ctr.methods.get("new")
     p_ar = [a.arg for a in ar.node.args.args][1:]
@@ -619,20 +642,18 @@ def run(ctx):
     from sa.guards import aliases, norm
 
     al = aliases(pf.node)
-    dc = [n for n in ast.walk(pf.node) if isinstance(n, ast.DictComp)]
-    good = False
-    if dc:
-        d = dc[0]
-        kv = norm(d.key, al)
-        c = d.value
-        if isinstance(c, ast.Call) and dotted(c.func) == "PartFactory":
-            args = [norm(a, al) for a in c.args] + [norm(k.value, al) for k in c.keywords]
-            good = args == [kv, "self._content_types[%s]" % kv, "self._package", "self._package_reader[%s]" % kv]
-    if good:
-        ctx.ok("R1.4", "_PackageLoader._parts", sample={"part": "PartFactory(partname, content_types[partname], package, blob=reader[partname])"})
+    pc = part_construction(pf)
+    if pc is None:
+        ctx.error("_PackageLoader._parts", "construction of the parts (PartFactory call keyed by the part name) not recognised")
     else:
-        ctx.violation("R1.4", "_PackageLoader._parts", "a part is not built from its own name, that name's content type and that name's bytes",
-                      file=pf.file, line=pf.line)
+        kexpr, c, _it = pc
+        kv = norm(kexpr, al)
+        args = [norm(a, al) for a in c.args] + [norm(k.value, al) for k in c.keywords]
+        if args == [kv, "self._content_types[%s]" % kv, "self._package", "self._package_reader[%s]" % kv]:
+            ctx.ok("R1.4", "_PackageLoader._parts", sample={"part": "PartFactory(partname, content_types[partname], package, blob=reader[partname])"})
+        else:
+            ctx.violation("R1.4", "_PackageLoader._parts", "a part is not built from its own name, that name's content type and that name's bytes "
+                          "(PartFactory(%s) keyed by %s)" % (", ".join(args), kv), file=pf.file, line=c.lineno)
     pfc = pk.classes.get("PartFactory")
     nw = pfc.methods.get("__new__") if pfc else None
     good = False
